@@ -644,7 +644,11 @@ func checkShuffled(h *Hand, deck []string) *vlib.Violation {
 	if h.Prop != "C14" {
 		return nil
 	}
-	if !samePermutation(deck, baseDeck(h.Cfg.ShortDeck)) {
+	want := h.Cfg.Deck
+	if h.Cfg.ConstructorDeck {
+		want = engineDeck(h.Cfg.ShortDeck)
+	}
+	if !samePermutation(deck, want) {
 		return vlib.V("C14", "shuffle/start", "the deck after Start() is not a permutation of the configured deck: %v", deck)
 	}
 	return nil
